@@ -14,8 +14,8 @@ def run(ctx):
     r = tlc_expect_ok(tlc("MC_Timestamp", "MC_Timestamp.cfg", name="mc_timestamp", workers=2, timeout=600), "MC Timestamp")
     ctx.add_tlc(r)
     vecs = tlc_expect_ok(tlc("MC_Timestamp", "MC_Timestamp_emit.cfg", name="timestamp_emit", workers=2, timeout=600, coverage=False), "emit").printed("VEC")
-    if len(vecs) != 18:
-        raise ToolError("expected 18 vectors, got %d" % len(vecs))
+    if len(vecs) != 34:
+        raise ToolError("expected 34 vectors, got %d" % len(vecs))
     d = ctx.path("pki")
     shutil.rmtree(d, ignore_errors=True); os.makedirs(d)
     try:
@@ -46,7 +46,7 @@ def run(ctx):
              "reads": [{"name": "r", "settings": {"trust": {"trust_anchors": both if v["anchoring"] == "anchored" else only_signer}, "verify": {"verify_trust": True, "verify_timestamp_trust": True}}}]}
         if v["token"] == "present":
             # one TSA configuration (serial file) per vector: the short-lived vectors run as parallel processes
-            x["tsa"] = {"config": K.tsa_config(d, "t%d" % i, tc, tk, os.path.join(d, "tsachain.pem")), "imprint": v["imprint"], "corrupt": v["sig"] == "corrupt"}
+            x["tsa"] = {"config": K.tsa_config(d, "t%d" % i, tc, tk, os.path.join(d, "tsachain.pem"), digest="sha256" if v["tsaAlg"] == "supported" else "sha1"), "imprint": v["imprint"], "corrupt": v["sig"] == "corrupt"}
         runs.append(x)
     # two passes: sign + read the long-lived ones normally; the short-lived ones are signed now and read after expiry
     first = [dict(x) for x in runs if vecs[x["id"]]["cert"] == "expired-since-signing"]
@@ -71,7 +71,7 @@ def run(ctx):
         raise ToolError("pki-run returned %d results for %d vectors" % (len(outs), len(vecs)))
     for i, v in enumerate(vecs):
         o = outs[i]
-        key = "%s:%s:%s:%s:%s" % (v["token"], v["imprint"], v["sig"], v["anchoring"], v["cert"])
+        key = "%s:%s:%s:%s:%s%s" % (v["token"], v["imprint"], v["sig"], v["anchoring"], v["cert"], "" if v["tsaAlg"] == "supported" else ":tsa-sha1")
         case = {"vector": v, "result": o}
         if o.get("panic"):
             ctx.violation("panic", "panic with a time-stamp token: %s" % o["panic"], case)
@@ -105,5 +105,5 @@ def run(ctx):
     ctx.cov["traces_validated_against_impl"] += len(vecs)
     ctx.cov["evaluations"] = len(vecs)
     ctx.cov["distinct_nontrivial"] = sum(1 for v in vecs if v["cert"] == "expired-since-signing")
-    ctx.cov["rule"] = "all 18 combinations of token presence x imprint x CMS signature x TSA anchoring x certificate (valid / expired since signing); non-trivial = the certificate that expires between signing and reading"
+    ctx.cov["rule"] = "all 34 combinations of token presence x imprint x CMS signature x TSA signature algorithm (supported / ECDSA with SHA-1) x TSA anchoring x certificate (valid / expired since signing); non-trivial = the certificate that expires between signing and reading"
     ctx.sample({"vector": vecs[0]})
